@@ -1,19 +1,100 @@
 (* C11 — a filter set survives being saved as a script and loaded back.
 
-   Proved here (factory/TextFacts.v over factory/Text.v and sieve/Lexer.v): the marker comments.
-   The line FiltersSet.tosieve writes before a filter ([pretext ++ text], LF) is ONE hash-comment token
-   ending before the line feed; the parser stores it stripped ([stored_comment]); from_parser_result
-   ([recover]) gives back exactly the name / description, for every marker that starts with a
-   non-blank byte, and every text that does not end in a blank and does not contain the marker.
-   The editing operations preserve "enabled = not wrapped" in every reachable state (C12), which is
-   what reloading the enabled flag rests on.  Tree equality of reloaded filters rests on C04 and is
-   exercised on the implementation (render -> parse -> from_parser_result -> render fixed point) over
-   generated histories, names, descriptions and marker prefixes. *)
+   Models: factory/Build.v (FiltersSet.tosieve: require line, marker comments, filters), sieve/Machine.v (the
+   parser, which collects the hash comments of every top-level command), factory/Load.v
+   (FiltersSet.from_parser_result), each run against the implementation on every check.
+   Proved (factory/LoadFacts.v over BuildSet.v, PrintTree.v, CompleteTree.v; factory/TextFacts.v):
+     (a) the marker line written before a filter is ONE hash-comment token ending before the line feed, the
+         parser stores it stripped, and from_parser_result recovers the name / description exactly, for every
+         marker that starts with a non-blank byte and every text that does not end in a blank and does not
+         contain the marker (with witnesses that both hypotheses are needed);
+     (b) C11_reload_same: for EVERY non-empty list of good filters (every documented condition/action form,
+         enabled or wrapped by disablefilter, with or without description) and requirements that cover them,
+         the text FiltersSet.tosieve writes is accepted by the parser, and from_parser_result applied to the
+         parsed commands returns the SAME requirements and the filters IN THE SAME ORDER with the same names,
+         descriptions and enabled flags -- unbounded over values, numbers of filters, conditions and actions;
+         the marker comments are attached to the right filter because the parser theorem
+         (CompleteTree.parse_commented_script through PrintTree.set_parses) says so for every commented script.
+   Hypotheses, besides those of C06: markers start with a non-blank byte, names/descriptions do not end in a
+   blank, do not contain their marker, and a name line cannot be taken for a description line or vice versa
+   (prefix conditions; all marker pairs used by callers in the harness satisfy them); the requirements have no
+   duplicate (FiltersSet.require never adds one).
+   The editing operations preserve "enabled = not wrapped" in every reachable state (C12).  That the reloaded
+   filters render to scripts with the same trees and that rendering the reloaded set is a fixed point rests on
+   C04 (print_parse_general) and is evaluated on the implementation over generated histories, names,
+   descriptions and marker prefixes. *)
 From Coq Require Import String.
 From Coq Require Import List NArith Bool Arith.
 From SV Require Import Bytes Lexer Text TextFacts.
 Import ListNotations.
 Local Open Scope nat_scope.
+From SV Require Import Tables ArgCheck ArgSpec Machine Printer CompleteFacts CompleteTree RenderFacts PrintTree GenTables Ops Build BuildFacts BuildSet Load LoadFacts.
+
+(* save, parse, load: same requirements, same names in the same order, same descriptions, same enabled flags *)
+Theorem C11_reload_same :
+  forall name_pre desc_pre : bytes,
+  marker_ok name_pre ->
+  marker_ok desc_pre ->
+  forall (loaded : list bytes) (fuel : nat) (reqs : list bytes) (sfs : list sfilter),
+  sfs <> [] ->
+  kreqs reqs ->
+  NoDup reqs ->
+  Forall (sf_ok name_pre desc_pre reqs fuel) sfs ->
+  Forall (lines_ok name_pre desc_pre) sfs ->
+  1 <= fuel ->
+  exists (text : bytes) (ns : list node) (lfs : list lfilter),
+    render_set gen_tables loaded fuel name_pre desc_pre
+      {| bs_requires := reqs; bs_filters := map sf_bf sfs |} = BOk text /\
+    parse gen_tables text = Accept ns /\
+    from_parser_result name_pre desc_pre ns = (reqs, lfs) /\
+    Forall2
+      (fun (x : sfilter) (f : lfilter) =>
+       lf_name f = sf_name x /\ lf_desc f = desc_of x /\ lf_enabled f = negb (sf_dis x)) sfs
+      lfs.
+Proof. exact LoadFacts.reload_same. Qed.
+Print Assumptions C11_reload_same.
+
+(* every commented script laid out as FiltersSet.tosieve does parses to its commands with each comment attached to the command it precedes *)
+Theorem C11_comments_attached :
+  forall sepw : bytes -> bytes,
+  (forall name : bytes, all_space (sepw name)) ->
+  forall (T : tables) (tops : list (bytes * (list bytes * gcmd))) 
+    (items : list xitem) (ns : list node) (L' : list bytes) (f : nat),
+  TotalFacts.twf_tables T = true ->
+  wf_tops T [] None (map snd tops) ns L' ->
+  Forall2 (top_canon sepw) tops items ->
+  Forall
+    (fun x : bytes * (list bytes * gcmd) => all_space (fst x) /\ Forall hash_ok (fst (snd x)))
+    tops -> tops <> [] -> tops_depth tops <= f -> parse T (set_text f items) = Accept ns.
+Proof. exact PrintTree.set_parses. Qed.
+Print Assumptions C11_comments_attached.
+
+(* non-vacuity: the C06 example definition, once enabled and once disabled with a description and a non-ASCII name *)
+Theorem C11_example_reload :
+  exists (n n' : node) (text : bytes) (ns : list node) (lfs : list lfilter),
+    good n (std_fcmd ex_conds ex_acts true) (fexts ex_conds ex_acts) false /\
+    good n' (wrapped (std_fcmd ex_conds ex_acts true)) (fexts ex_conds ex_acts) true /\
+    render_set gen_tables [] 8 ex_np ex_dp
+      {|
+        bs_requires := ex_reqs;
+        bs_filters :=
+          [{|
+             bf_name := bs "my filter"; bf_content := n; bf_enabled := true; bf_desc := None
+           |};
+           {|
+             bf_name := bs "caf" ++ [195%N; 169%N] ++ bs " #2";
+             bf_content := n';
+             bf_enabled := false;
+             bf_desc := Some (bs "about ""it""")
+           |}]
+      |} = BOk text /\
+    parse gen_tables text = Accept ns /\
+    from_parser_result ex_np ex_dp ns = (ex_reqs, lfs) /\
+    map (fun f : lfilter => (lf_name f, lf_desc f, lf_enabled f)) lfs =
+    [(bs "my filter", [], true);
+     (bs "caf" ++ [195%N; 169%N] ++ bs " #2", bs "about ""it""", false)].
+Proof. exact LoadFacts.ex_reload. Qed.
+Print Assumptions C11_example_reload.
 
 (* the marker line is one hash-comment token that ends before the line feed *)
 Theorem C11_comment_is_one_token :
